@@ -3,7 +3,7 @@ CONSTANTS
  MaxPkts = 2
  T1Retries = 1
  Closers = {6,7}
- Aborters = {8}
+ Aborters = {}
  Readers = {5}
  defaultInitValue = defaultInitValue
 INVARIANT LockOrder
